@@ -305,3 +305,51 @@ Section CellRelations.
         end
     end.
 End CellRelations.
+
+(** * CrossingEdgeQuery.getCellsForEdge / computeCellsIntersected / clipVAxis (s2/crossing_edge_query.go):
+      the descent over the cell tree, with the float clipping abstract. [B] is the edge bound
+      (r2.Rect) carried down; [left_only c b] is [edgeBound.X.Hi < center.X] for the padded cell of
+      [c] (padding 0), [right_only] is [edgeBound.X.Lo >= center.X], [lower_only]/[upper_only] the
+      same for Y; [split_u]/[split_v] are splitUBound/splitVBound at the centre of [c];
+      [child_ij c i j] is PaddedCellFromParentIJ(pcell, i, j).id. The result lists the positions
+      of the visited index cells in the order Go appends them to c.cells. *)
+Section Descent.
+  Variable B : Type.
+  Variables left_only right_only lower_only upper_only : Z -> B -> bool.
+  Variables split_u split_v : Z -> B -> B * B.
+  Variable child_ij : Z -> Z -> Z -> Z.
+  Variable cells : list Z.
+
+  (** clipVAxis(edgeBound, center.Y, i, pcell), given the recursive call *)
+  Definition clip_v_axis (rec : Z -> B -> list Z) (c i : Z) (b : B) : list Z :=
+    if lower_only c b then rec (child_ij c i 0) b
+    else if upper_only c b then rec (child_ij c i 1) b
+    else let '(b0, b1) := split_v c b in rec (child_ij c i 0) b0 ++ rec (child_ij c i 1) b1.
+
+  (** computeCellsIntersected(pcell, edgeBound); [fuel] bounds the recursion depth (levels) *)
+  Fixpoint compute_cells (fuel : nat) (c : Z) (b : B) : list Z :=
+    let pos := seek cells (range_min c) in
+    if (id_at cells pos =? sentinel) || (id_at cells pos >? range_max c) then []
+    else if id_at cells pos =? c then [pos]
+    else match fuel with
+    | O => []
+    | S fu =>
+        if left_only c b then clip_v_axis (compute_cells fu) c 0 b
+        else if right_only c b then clip_v_axis (compute_cells fu) c 1 b
+        else let '(b0, b1) := split_u c b in
+             if lower_only c b then compute_cells fu (child_ij c 0 0) b0 ++ compute_cells fu (child_ij c 1 0) b1
+             else if upper_only c b then compute_cells fu (child_ij c 0 1) b0 ++ compute_cells fu (child_ij c 1 1) b1
+             else clip_v_axis (compute_cells fu) c 0 b0 ++ clip_v_axis (compute_cells fu) c 1 b1
+    end.
+
+  (** one face segment of getCellsForEdge: [root] = edgeRoot (ShrinkToFit), [b] = edgeBound *)
+  Definition cells_for_segment (root : Z) (b : B) : list Z :=
+    match locate_cellid cells root with
+    | Indexed pos => [pos]
+    | Subdivided _ => compute_cells 31 root b
+    | Disjoint => []
+    end.
+  (** getCellsForEdge over the face segments *)
+  Definition cells_for_edge (segments : list (Z * B)) : list Z :=
+    flat_map (fun sg => cells_for_segment (fst sg) (snd sg)) segments.
+End Descent.
